@@ -284,7 +284,7 @@ func rulesC04(w *World, r *Report) {
 				var tags ISet
 				desc := e.Kind
 				switch {
-				case e.Kind == "loophead" || e.Kind == "lookup" || e.Kind == "classdef" || e.Kind == "register":
+				case e.Kind == "loophead" || e.Kind == "fieldstore" || e.Kind == "register":
 					continue // the class definition belongs to the object production
 				case e.Kind == "ref":
 					tags = nil // the found outcome: a back-reference, nothing registered
@@ -886,6 +886,11 @@ func (w *World) ruleCaseHelper(r *Report, rule, name string, lo, hi int64, off i
 		r.undecided(rule, name, "-", "anchor not found")
 		return
 	}
+	w.ruleCaseHelperFn(r, rule, fn, lo, hi, off)
+}
+
+func (w *World) ruleCaseHelperFn(r *Report, rule string, fn *ssa.Function, lo, hi int64, off int64) {
+	name := fnName(fn)
 	f := w.flow(fn)
 	ok := false
 	fact := "no store of name[0] ± 32 into the first octet found"
